@@ -27,7 +27,8 @@ func (t *vehiclesDurationObjectiveImpl) Lock(model Model) error {
 			IsDependentOnTime()
 	}
 	// caching the vehicle type by index for performance
-	t.vehicleTypesByIndex = make([]ModelVehicleType, len(vehicleTypes))
+	// indexed by vehicle (several vehicles may share one vehicle type)
+	t.vehicleTypesByIndex = make([]ModelVehicleType, len(model.Vehicles()))
 	for _, vehicle := range model.Vehicles() {
 		t.vehicleTypesByIndex[vehicle.Index()] = vehicle.VehicleType()
 	}
